@@ -13,7 +13,7 @@ from common import (V, pair_faults, E3_METHODS, E3_NAMES, E3_CANON, EXC_ALL, EXC
 
 PROP = 'C05'
 LEVEL = 'exploration'
-N_QUICK = 24000
+N_QUICK = 72000
 N_THOROUGH = 3000000
 WALL_QUICK = 100
 WALL_THOROUGH = 1500
@@ -125,8 +125,18 @@ def check(scn, hist):
         out.append(V(PROP, 'read_budget', m, last['id'] if last else None, 'run did not terminate: ' + hist.hang))
         return out
     specs = {b['port']: b for b in scn['world']['boards']}
+    prev_objs = []
     for i, rec in enumerate(hist.ops):
         op = rec['op']
+        objs = rec.get('objs') or []
+        if op['op'] == 'call':
+            # a failure is recorded as *the object's* error: no other object's err may change
+            for j, (po, no) in enumerate(zip(prev_objs, objs)):
+                if j != op['obj'] and po is not None and no is not None and po['err'] != no['err']:
+                    out.append(V(PROP, 'isolation', op['m'], rec['id'],
+                                 'err of object %d changed from %r to %r by a call on object %d'
+                                 % (j, po['err'], no['err'], op['obj'])))
+        prev_objs = objs
         if op['op'] != 'call' or op['m'] not in E3_METHODS:
             continue
         b, a_ = rec['before'], rec['after']
@@ -152,7 +162,9 @@ def check(scn, hist):
         if text is not None:
             want = text.strip() + '\r'
             got = rec['wire'].get(b['port'], '')
-            write_faulted = any(f[1] == 'write' for f in raised_here)
+            # any I/O call of this request that raised (a write, or a flush / reset the code may issue before
+            # it) can leave the request untransmitted or transmitted in part
+            write_faulted = bool(raised_here)
             other = {p: w for p, w in rec['wire'].items() if p != b['port'] and w}
             if other:
                 out.append(V(PROP, 'wire', m, oid, 'bytes on another port: %r' % other))
@@ -366,7 +378,7 @@ def sweep_expand(cell):
     yield base
     for tag, faults in single_faults(rec, exc_classes=excs,
                                      reply_kinds=['drop', 'drop_request', 'err_bang', 'err_named', 'stale_instead',
-                                                  'stale_hex', 'stale_front', 'late26', 'd25', 'd1']):
+                                                  'stale_hex', 'stale_front', 'stale_near', 'late26', 'd25', 'd1']):
         yield with_faults(base, faults)
     # two faults in one call: empty reads inside the budget, then an exception / unplug at any later I/O
     if m not in SERIAL_ONLY:
@@ -391,13 +403,64 @@ def gen_request(rng):
     return call(0, m, a, k)
 
 
+def gen_two(rng, idx):
+    """Two connection objects on two boards, requests interleaved: every value must come from the object's
+    own board (payloads are unique per board), and a failure on one object must not touch the other."""
+    from common import ebb_spec, PORT_NAMES, distinct_ram
+    style = rng.choice(['mac', 'linux', 'win'])
+    boards = []
+    for i in range(2):
+        spec = ebb_spec(PORT_NAMES[style][i], fw=rng.choice(FW_OK), nick='Two%d' % i, style=style)
+        spec['prior'] = {'ram': distinct_ram(rng), 'steps': [rng.randint(-9999, 9999), rng.randint(-9999, 9999)],
+                         'en1': rng.randint(0, 1), 'en2': rng.randint(0, 1), 'mode': rng.randint(1, 5)}
+        spec['voltage'] = rng.choice([0, 100, 249, 250, 251, 300, 1023])
+        spec['current'] = rng.randint(0, 1023)
+        spec['status'] = rng.randint(0, 255)
+        boards.append(spec)
+    ops = [{'op': 'new', 'obj': 0}, {'op': 'new', 'obj': 1},
+           call(0, 'connect', [boards[0]['port']]), call(1, 'connect', [boards[1]['port']])]
+    for _ in range(rng.randint(4, 16)):
+        op = gen_request(rng)
+        if op['m'] in ('reboot', 'bootload') or (op['m'] == 'command' and req_name(op['a'][0]).lower() in ('rb', 'bl')):
+            continue
+        op['obj'] = rng.randrange(2)
+        ops.append(op)
+    mk_ops(ops)
+    scn = {'prop': PROP, 'world': {'boards': boards}, 'ops': ops, 'faults': {}, 'cfg': {'mode': 'two'}}
+    faults = {'io': [], 'reply': []}
+    recs, _ = discover(scn)
+    reqops = [op for op in ops if op['op'] == 'call' and op['m'] not in ('connect', 'disconnect')]
+    for op in reqops:
+        rec = recs[op['id']]
+        for r in range(1, len(rec['requests']) + 1):
+            if rng.random() < 0.25:
+                faults['reply'].append({'at': [op['id'], r], 'delay': [rng.choice([1, 2, 24, 25])]})
+    if reqops and rng.random() < 0.5:
+        # one object fails somewhere in the middle; the other must go on undisturbed
+        op = rng.choice(reqops)
+        rec = recs[op['id']]
+        if rec['requests'] and rng.random() < 0.6:
+            r = rng.randint(1, len(rec['requests']))
+            faults['reply'] = [f for f in faults['reply'] if f['at'] != [op['id'], r]]
+            faults['reply'].append(reply_fault(op['id'], r, rng.choice(['drop', 'err_bang', 'err_named', 'stale_instead',
+                                                                       'stale_near', 'late26']),
+                                               req_name(rec['requests'][r - 1]['text'])))
+        elif rec['io']:
+            faults['io'].append({'at': [op['id'], rng.randint(1, len(rec['io']))], 'kind': 'raise',
+                                 'exc': rng.choice(EXC_ALL)})
+    scn['faults'] = faults
+    return scn
+
+
 def gen(rng, idx):
+    if rng.random() < 0.12:
+        return gen_two(rng, idx)
     mode = 'conforming' if rng.random() < 0.4 else 'faulty'
     world = simple_world(rng, fw=rng.choice(FW_OK))
     ops = []
     n_ep = rng.randint(1, 3)
     enabled = rng.sample(['drop', 'drop_request', 'err_bang', 'err_named', 'stale_instead', 'stale_hex',
-                          'stale_front', 'late', 'raise', 'unplug'], rng.randint(1, 4))
+                          'stale_front', 'stale_near', 'late', 'raise', 'unplug'], rng.randint(1, 4))
     targets = []
     for ep in range(n_ep):
         ops.append({'op': 'new', 'obj': ep})
@@ -464,6 +527,8 @@ def gen(rng, idx):
                 faults['reply'] = [f for f in faults['reply'] if f['at'] != [op['id'], r]]
                 if kind == 'late':
                     faults['reply'].append({'at': [op['id'], r], 'delay': [rng.choice([26, 26, 27, 40])]})
+                elif kind == 'stale_near':
+                    faults['reply'].append(reply_fault(op['id'], r, kind, name))
                 elif kind in ('stale_instead', 'stale_front', 'stale_hex'):
                     w = wrong_line(rng, name)
                     f = {'at': [op['id'], r], 'stale': {'text': w + '\n', 'd': rng.choice([0, 0, 1, 25])}}
